@@ -590,3 +590,52 @@ def spec_escape_detected(fns, consts):
 
 
 SPECS["C05"] = [spec_trailing_positional, spec_escape_detected]
+
+
+# ------------------------------------------------------------------ C18: one step of the completion engine's shadow parse
+
+def spec_complete_iteration(fns, consts):
+    """clap_complete::engine::complete: one iteration of its token loop from an ARBITRARY state
+    (next_state, pos_index, is_escaped, current command all havoc'd), with parse_positional,
+    parse_opt_value, opt_allows_hyphen and pos_allows_hyphen executed from their own MIR: no panic
+    edge (unreachable!/expect) and no integer overflow is reachable.  Every other callee is opaque."""
+    con = contracts.Contracts(fns, default_pure=True, effects_inline=(r"^parse_positional$", r"^parse_opt_value$"),
+                              extra_inline=(r"^opt_allows_hyphen$", r"^pos_allows_hyphen$"))
+    ctx = symex.Ctx(consts, con)
+    cands = [n for n in fns if n == "complete"]
+    if len(cands) != 1:
+        raise Unsupported("clap_complete: free function `complete` not found exactly once")
+    fn = fns["complete"].get()
+    hdr = [b for b, blk in fn.blocks.items() if any(re.search(r"= RawArgs::next\(", s) for s in blk["stmts"])]
+    if len(hdr) != 1:
+        raise Unsupported("complete: token loop not found")
+    header = hdr[0]
+    call = [s for s in fn.blocks[header]["stmts"] if "RawArgs::next(" in s][0]
+    nxt = re.search(r"return: (bb\d+)", call).group(1)
+    sw = [s for s in fn.blocks[nxt]["stmts"] if s.startswith("switchInt")]
+    m = re.search(r"\[1: (bb\d+)", sw[0]) if sw else None
+    if not m:
+        raise Unsupported("complete: `while let Some(..)` shape not found")
+    tok_local = re.match(r"^(_\d+) = RawArgs::next", call).group(1)
+    ex = symex.Exec(ctx, fn, [("opq", "cmd"), ("opq", "args"), ("bv", ctx.sym("arg_index", "(_ BitVec 64)"), 64), ("opq", "current_dir")])
+    ex.havoc_bound = 1 << 48
+    ex.run(start=m.group(1), stop_at=header, env={tok_local: ("opq", "next_token")}, havoc_unassigned=True, cut_loops=True)
+    for k, n in list(ctx.keys.items()):
+        if ("@Pos" in k or "@Opt" in k) and ctx.decls[n] == "(_ BitVec 64)":
+            ctx.assume(f"counter inside the parse state ({k[-24:]}) < 2^48", f"(bvult {n} (_ bv{1 << 48} 64))")
+    obs = []
+    for o in ex.obligations:
+        o = dict(o)
+        o["target"] = "complete_iteration"
+        o["kind"] = "panic" if o["kind"] == "panic" else "assert"
+        o["msg"] = ("in " + o.get("via", "complete") + ": ") + o["msg"]
+        obs.append(o)
+    n_paths = len(ex.stops) + len(ex.returns) + len(ex.cuts)
+    if n_paths == 0 or not any(o["kind"] == "panic" for o in obs):
+        raise Unsupported("complete: fragment has no paths or no panic edge was encoded (vacuous)")
+    return ctx, obs, [{"function": "clap_complete::engine::complete [one loop iteration, arbitrary state; helpers executed from MIR]", "mir_line": fn.line,
+                       "mir_blocks": len(fn.blocks), "obligations": len(obs), "return_paths": n_paths}], con
+
+
+spec_complete_iteration.crate = "clap_complete"
+SPECS["C18"] = [spec_complete_iteration]
